@@ -29,7 +29,7 @@ BOUNDS = {'quick': 'per-layer alpha length 1..4, per-channel 2x2 and 3x2, combin
 OUTSIDE = ['per-channel matrices larger than the bound (the sampling code is column-wise independent; not proved here)', 'ties between coefficients (gap < 0.05)', 'float32 softmax underflow at temperature 0.05 with gaps > 4.4 (reals have no underflow)']
 ASSUMPTIONS = ['pairwise gaps between competing coefficients >= 0.05 (no ties)', 'exp, log: arbitrary strictly increasing functions, exp > 0, exp(0) = 1, log(1) = 0', 'Gumbel noise: arbitrary reals (exponential_ stub returns arbitrary positives)']
 INSTANCE_TIMEOUT_S = {'quick': 900, 'thorough': 3000}
-Q = 30000
+Q = 120000
 GAP = Fraction(1, 20)
 
 
